@@ -66,5 +66,178 @@ pub fn run(tier: &str) -> ! {
     run.add(mcx::explore(&sb, &bb));
     let (scn2, b2) = scenario_dispute(tier);
     run.add(mcx::explore(&scn2, &b2));
+    let po = poweronly::PowerOnly { miners: 5 };
+    run.add(mcx::explore(&po, &Bounds { max_depth: if tier_is_thorough(tier) { 6 } else { 4 }, wall_cap_s: if tier_is_thorough(tier) { 600.0 } else { 20.0 }, replay_sample: 16, ..Default::default() }));
     run.finish()
+}
+
+// ------------------------------------------------------------------ power-only sub-scenario
+
+pub mod poweronly {
+    //! Five real miner actors; the harness plays each of them calling `UpdateClaimedPower`
+    //! (the power actor's contract is with miner-typed callers). Exhaustive over deltas.
+    use crate::chain::create_miner;
+    use crate::miner::{POST_PROOF, SECTOR_SIZE, small_policy};
+    use crate::util::*;
+    use fil_actor_power::{Method as PM, State as PowerState, UpdateClaimedPowerParams};
+    use fil_actors_runtime::STORAGE_POWER_ACTOR_ADDR;
+    use fvm_shared::ActorID;
+    use fvm_shared::bigint::BigInt;
+    use fvm_shared::econ::TokenAmount;
+    use mcvm::{Store, Vm};
+    use mcx::{Key, Scenario, Step};
+    use num_traits::Zero;
+    use serde::{Deserialize, Serialize};
+    use std::collections::BTreeMap;
+
+    #[derive(Clone, Debug, Serialize, Deserialize)]
+    pub enum Act {
+        /// miner index, raw delta in sectors, quality multiplier of the delta (1 or 10)
+        Update(usize, i64, i64),
+        Tick,
+    }
+
+    #[derive(Clone, Debug, Serialize)]
+    pub struct M {
+        pub claims: BTreeMap<usize, (i64, i64)>,
+        pub ticks_left: u8,
+    }
+
+    pub struct PowerOnly {
+        pub miners: usize,
+    }
+    pub struct W {
+        pub vm: Vm,
+        pub ms: Vec<ActorID>,
+        pub base: mcvm::Snapshot,
+    }
+
+    impl PowerOnly {
+        fn check(&self, w: &W, m: &M) -> Result<(), String> {
+            let vm = &w.vm;
+            let ps: PowerState = vm.state_of(4).unwrap();
+            let min = 2 * SECTOR_SIZE as i64;
+            let (mut tb, mut tqb, mut tr, mut tq, mut above) = (0i64, 0i64, 0i64, 0i64, 0i64);
+            for (i, mid) in w.ms.iter().enumerate() {
+                let c = ps.get_claim(&vm.store, &id(*mid)).unwrap().ok_or_else(|| format!("miner {mid} lost its claim"))?;
+                let (r, q) = m.claims.get(&i).cloned().unwrap_or((0, 0));
+                if c.raw_byte_power != BigInt::from(r) || c.quality_adj_power != BigInt::from(q) {
+                    return Err(format!("claim of miner {i} ({}, {}) != sum of accepted deltas ({r}, {q})", c.raw_byte_power, c.quality_adj_power));
+                }
+                tb += r;
+                tqb += q;
+                if r >= min {
+                    above += 1;
+                    tr += r;
+                    tq += q;
+                }
+            }
+            // other miners (none) - totals must match exactly
+            if ps.total_bytes_committed != BigInt::from(tb) || ps.total_qa_bytes_committed != BigInt::from(tqb) {
+                return Err(format!("committed totals ({}, {}) != sum of claims ({tb}, {tqb})", ps.total_bytes_committed, ps.total_qa_bytes_committed));
+            }
+            if ps.total_raw_byte_power != BigInt::from(tr) || ps.total_quality_adj_power != BigInt::from(tq) {
+                return Err(format!("network power ({}, {}) != sum of claims at or above the minimum ({tr}, {tq})", ps.total_raw_byte_power, ps.total_quality_adj_power));
+            }
+            if ps.miner_above_min_power_count != above {
+                return Err(format!("miners above minimum {} != {above}", ps.miner_above_min_power_count));
+            }
+            let cur = ps.current_total_power();
+            let want = if above < 4 { (BigInt::from(tb), BigInt::from(tqb)) } else { (BigInt::from(tr), BigInt::from(tq)) };
+            if cur != want {
+                return Err(format!("current total power {:?} does not follow the minimum-miners rule (above = {above})", cur));
+            }
+            Ok(())
+        }
+    }
+
+    impl Scenario for PowerOnly {
+        type S = VS<M>;
+        type A = Act;
+        type W = W;
+        fn name(&self) -> String {
+            "power-only".into()
+        }
+        fn worker(&self, store: &Store) -> W {
+            let vm = Vm::genesis(store.clone(), small_policy());
+            vm.bump_nonce.set(true);
+            let mut ms = vec![];
+            for i in 0..self.miners {
+                let o = vm.new_account(60 + i as u8, &fil(5000)).0;
+                ms.push(create_miner(&vm, o, o, POST_PROOF, &fil(100)).unwrap_or_else(|r| panic!("SETUP-FAILED: {}", r.tree())));
+            }
+            vm.bump_nonce.set(false);
+            let base = vm.snapshot();
+            W { vm, ms, base }
+        }
+        fn bases(&self, w: &W) -> Vec<(String, VS<M>)> {
+            vec![("five-empty-miners".into(), VS { snap: w.base.clone(), m: M { claims: BTreeMap::new(), ticks_left: 1 } })]
+        }
+        fn key(&self, s: &VS<M>) -> Key {
+            vs_key(s)
+        }
+        fn kind(&self, a: &Act) -> String {
+            match a {
+                Act::Update(_, d, q) => format!("update-claimed-power {d:+} x{q}"),
+                Act::Tick => "tick".into(),
+            }
+        }
+        fn actions(&self, w: &W, s: &VS<M>) -> Vec<Act> {
+            let mut v = vec![];
+            for i in 0..w.ms.len() {
+                for d in [1i64, 2, -1, -2] {
+                    v.push(Act::Update(i, d, 1));
+                }
+                v.push(Act::Update(i, 1, 10));
+                v.push(Act::Update(i, -1, 10));
+            }
+            if s.m.ticks_left > 0 {
+                v.push(Act::Tick);
+            }
+            v
+        }
+        fn step(&self, w: &W, s: &VS<M>, a: &Act, _f: &[usize]) -> Step<VS<M>> {
+            let vm = &w.vm;
+            vm.restore(&s.snap);
+            let mut m = s.m.clone();
+            let mut viol = None;
+            let outcome;
+            match a {
+                Act::Update(i, d, q) => {
+                    let raw = d * SECTOR_SIZE as i64;
+                    let qa = raw * q;
+                    let r = imp(vm, w.ms[*i], &STORAGE_POWER_ACTOR_ADDR, &TokenAmount::zero(), PM::UpdateClaimedPower as u64, Some(&UpdateClaimedPowerParams { raw_byte_delta: BigInt::from(raw), quality_adjusted_delta: BigInt::from(qa) }));
+                    let (cr, cq) = m.claims.get(i).cloned().unwrap_or((0, 0));
+                    let expect = cr + raw >= 0 && cq + qa >= 0;
+                    if r.any_panicked() {
+                        viol = Some(format!("panic: {}", r.tree()));
+                    } else if r.ok() != expect {
+                        viol = Some(format!("power delta ({raw}, {qa}) on claim ({cr}, {cq}): model accept={expect}: {}", r.tree()));
+                    }
+                    if expect {
+                        m.claims.insert(*i, (cr + raw, cq + qa));
+                    }
+                    outcome = if r.ok() { "accepted" } else { "rejected" };
+                }
+                Act::Tick => {
+                    m.ticks_left -= 1;
+                    let r = vm.tick();
+                    if r.flat().iter().any(|i| !i.ok()) {
+                        viol = Some(format!("tick failed: {}", r.tree()));
+                    }
+                    outcome = "ok";
+                }
+            }
+            if viol.is_none()
+                && let Err(e) = self.check(w, &m)
+            {
+                viol = Some(e);
+            }
+            let _ = BigInt::zero();
+            let mut st = Step::new(VS { snap: vm.snapshot(), m }, outcome);
+            st.agreed = 1;
+            st.violation = viol;
+            st
+        }
+    }
 }
